@@ -86,7 +86,7 @@ def run(ctx):
                 o = cfg.op_origin(cb, tj["a"][1])
                 if o and o[0] in cfg.derived_locals(cb, [tk["d"][0]]):
                     fresh = True
-        idx = sum(1 for x in sites if x[0] is cb and x[1] < j)
+        idx = sum(1 for x in sites if x[0].path == cb.path and x[1] < j)
         ctx.ob("R10b", "%s#%d:non-empty" % (inst, idx), g1 is not None,
                "alias emptiness rejected by %s" % g1 if g1 else
                "an empty alias can reach `%s` in `%s` (no emptiness test guards the call)" % (
